@@ -174,6 +174,12 @@ def gen_cases(tier, seed):
                         last = g.steps[-1]
                         if last[2].get("inplace"):
                             continue
+                        if op == "scale" and last[2].get("form") not in ("mul", "div", "add", "sub", "pow"):
+                            continue   # reflected forms have no in-place variant
+                        if op == "div" and kind_of(g.vals[last[1]]) != "vec":
+                            continue   # array /= array is not offered (NotImplemented -> rebinding)
+                        if op == "drop_misaligned" and last[2]["b"] == last[1]:
+                            continue   # one object cannot receive both results
                         last[2].pop("via", None)
                         last[2].pop("prop", None)
                         yield {"contract": "C14.inplace_equiv", "program": g.program(), "gen": [tier, seed, "equiv", k, op]}
@@ -205,7 +211,7 @@ def check_frames(d):
         if r.exc is not None:
             # exceptions are C01's subject; the frame must hold nevertheless
             feats["raised"] = type(r.exc).__name__
-        allowed = set(mutated_slots(step)) if r.exc is None else set()
+        allowed = set(mutated_slots(step))   # (a failed in-place call may leave its receiver in any state)
         for j in range(nbefore):
             if before[j] is None or j in allowed:
                 continue
